@@ -2583,6 +2583,16 @@ func (d *c17d_bn254) mpcFamily() {
 			*c17field[curve.G1Affine](&p.proof, "contributionCommitment") = d.off1().P
 			p.x = nil
 			c17Forged(tr, cu, "offgroup", p)
+			if tor, ok := d.torsion1(); ok {
+				// the contribution commitment shifted by a cofactor-torsion point. (The updated values themselves are not shifted:
+				// UpdateProof.Verify documents that it does not subgroup check the representations - its callers do, see the
+				// torsion-shifted powers handed to kzg.MpcSetup.Verify.)
+				p = cu.cp(a)
+				cc := c17field[curve.G1Affine](&p.proof, "contributionCommitment")
+				cc.Add(cc, &tor)
+				p.x = nil
+				c17Forged(tr, cu, "offgroup", p)
+			}
 			if sh.v1 > 1 {
 				p = cu.cp(a)
 				p.v1n = p.v1n[:sh.v1-1]
